@@ -40,8 +40,11 @@ type Step struct {
 	Date        string `json:"date,omitempty"` // "<epoch> <tz>"
 	Subject     string `json:"subject,omitempty"`
 	SubjectKind string `json:"subject_kind,omitempty"`
-	Empty       bool   `json:"empty,omitempty"`
-	Ops         []Op   `json:"ops,omitempty"`
+	// Message, when set, is the complete commit message passed with `git commit -F` (a first paragraph of 70-100 KB
+	// folded by %s into one subject line); Subject then only describes it (the full text is in the truth).
+	Message string `json:"-"`
+	Empty   bool   `json:"empty,omitempty"`
+	Ops     []Op   `json:"ops,omitempty"`
 }
 
 type Script struct {
@@ -54,6 +57,7 @@ type Opts struct {
 	MaxOps                 int  // paths per commit
 	Plain                  bool // no spaces in paths, short ASCII authors (used where a table printer would wrap cells)
 	Conventional           bool // mostly conventional-commit subjects (C15 CLI slice)
+	LongSubject            bool // one ordinary commit gets a first message paragraph of 70-100 KB
 }
 
 // ---------------------------------------------------------------------------------------------------------------
@@ -225,7 +229,14 @@ func (g *gen) subject(author string, dateShort string) (string, string) {
 			return cc() + "adjust " + w + " " + r.Pick(words), "conventional"
 		}
 	}
-	switch r.Intn(16) {
+	switch r.Intn(19) {
+	case 16:
+		// git keeps leading blanks of the first message line (%s only drops trailing ASCII blanks)
+		return r.Pick([]string{"   ", " ", "\t", "  \t "}) + "indented " + w + " note", "leading-blanks"
+	case 17:
+		return "\u3000" + w + " with an ideographic space in front", "leading-U+3000"
+	case 18:
+		return r.Pick([]string{"", "\u3000"}) + "update " + w + " handling" + r.Pick([]string{"\u00a0", "\u00a0\u00a0", "\u2003"}), "trailing-unicode-space"
 	case 0:
 		return "[" + r.Pick(hexWords) + "] backport " + w, "bracket-hex"
 	case 1:
@@ -361,6 +372,25 @@ func Generate(r *run.Rand, o Opts) *Script {
 		}
 		sc.Steps = append(sc.Steps, st)
 		commits++
+	}
+	if o.LongSubject {
+		var idx []int
+		for i, st := range sc.Steps {
+			if st.Kind == "commit" && !st.Empty && i > 0 {
+				idx = append(idx, i)
+			}
+		}
+		if len(idx) > 0 {
+			st := &sc.Steps[idx[r.Intn(len(idx))]]
+			var sb strings.Builder
+			target := r.Range(70000, 100000)
+			for n := 0; sb.Len() < target; n++ {
+				fmt.Fprintf(&sb, "%s %d %s %s %s %s %s %s\n", r.Pick(ccTypes), n, r.Pick(words), r.Pick(words), r.Pick(words), r.Pick(words), r.Pick(words), r.Pick(words))
+			}
+			st.Message = "long first paragraph: " + sb.String() + "\nsecond paragraph, not part of the subject\n"
+			st.Subject = fmt.Sprintf("<first message paragraph of %d bytes in %d lines>", sb.Len()+22, strings.Count(sb.String(), "\n"))
+			st.SubjectKind = "long-paragraph"
+		}
 	}
 	return sc
 }
@@ -704,6 +734,13 @@ func Build(sc *Script, repo string) error {
 				}
 			}
 			args := []string{"commit", "-q", "--no-verify", "-m", st.Subject}
+			if st.Message != "" {
+				msgFile := filepath.Join(filepath.Dir(repo), fmt.Sprintf("message-%d.txt", i))
+				if err := ioutil.WriteFile(msgFile, []byte(st.Message), 0o644); err != nil {
+					return err
+				}
+				args = []string{"commit", "-q", "--no-verify", "-F", msgFile}
+			}
 			if st.Empty {
 				args = append(args, "--allow-empty")
 			} else {
